@@ -14,6 +14,7 @@ import (
 	"sort"
 	"strconv"
 	"strings"
+	"sync"
 	"sync/atomic"
 	"time"
 )
@@ -211,9 +212,25 @@ func cmdCheck(args []string) int {
 	var knownHits []*Violation
 	var unconfirmed []*Violation
 	var solverSec float64
-	for _, h := range hs {
-		cfg2 := *cfg
-		run := w.Explore(h, &cfg2)
+	cpuSem = make(chan struct{}, cfg.Workers)
+	runs := make([]*HarnessRun, len(hs))
+	{
+		var wg sync.WaitGroup
+		hsem := make(chan struct{}, 6) // harnesses in flight
+		for i, h := range hs {
+			wg.Add(1)
+			go func(i int, h *harnessFn) {
+				defer wg.Done()
+				hsem <- struct{}{}
+				defer func() { <-hsem }()
+				cfg2 := *cfg
+				runs[i] = w.Explore(h, &cfg2)
+			}(i, h)
+		}
+		wg.Wait()
+	}
+	for hi, h := range hs {
+		run := runs[hi]
 		he := &harnessEvidence{Name: h.name, Paths: run.Paths, PathsDone: run.PathsDone, PathsInfeas: run.PathsInfeas, Obligations: run.Obs,
 			Covers: run.Covers, Queries: map[string]int{"unsat": run.Queries[Unsat], "sat": run.Queries[Sat], "unknown": run.Queries[Unknown]},
 			OneShot: run.QueriesOne, SolverSec: float64(run.SolverNs) / 1e9, WallSec: run.wall.Seconds(), MaxDecisions: run.MaxDecisions,
